@@ -60,9 +60,11 @@ CHECKS = {
  "C17": ("deterministic structure/fixed-point obligations through the live lexer of subclassed environments plus bounded symbolic execution comparing custom-token, default-token and recompiled queries",
          "For 18 concrete token assignments (multi-character, prefix-related) x templates using every identifier: the custom spelling compiles to the default query's structure, its string form recompiles to it and is a fixed point, and all three return the same matches on symbolic documents and filter contexts.",
          "token assignments concrete (they are compiled into the lexer regex); spellings colliding with other syntax excluded"),
+ "C18": ("solver-driven enumeration (CrossHair path search over option flags and pool indices) of the real argparse definition and sub-command handlers with the operating system stubbed, vs the corresponding library call",
+         "PARTIAL claim. For the path, pointer and patch sub-commands: every combination of the boolean options, expression inline or from a file, output to stdout or a file, document from a file or stdin, over pools of 15 queries / 13 pointers / 12 patches (accepted and rejected by the library) and 5 documents (valid, truncated, empty): accepted inputs write exactly json.dumps of the library result and exit 0; rejected inputs exit 1 with one line on stderr, nothing on stdout and no escaping exception unless --debug. Everything is concretised by the pools: this is enumeration driven by the solver, not symbolic reasoning; it is claimed because it executes the real parser/handlers and decided two real defects.",
+         "OS stub: argparse.FileType -> in-memory file table, sys.stdin/stdout/stderr -> StringIO, sys.exit observed as SystemExit; real files, encodings, process exit codes and interpreter tracebacks are outside"),
 }
 NA = {
- "C18": "process-level I/O (argparse FileType, stdin/stdout, exit status, stderr text): CrossHair's audit wall blocks file access, file contents pass through C json, and what remains is a finite option table whose exploration would be enumeration of concrete runs - no role for a solver",
 }
 ALL = [f"C{n:02d}" for n in range(1, 21)]
 PENDING = "not claimed"
